@@ -259,7 +259,10 @@ func runC04(c *Ctx) {
 			ov := p.Field("adapter", "BroadcastOperator", other)
 			c.Ob("C04-D3", "adapter.BroadcastOperator."+a.fn+"/keeps-"+other, fn.Pos(), len(findInstrs(fn, fieldStorePred(ov))) == 0, a.fn+" must not touch "+other)
 		}
-		for _, a := range []struct{ fn, callee string; clone bool }{
+		for _, a := range []struct {
+			fn, callee string
+			clone      bool
+		}{
 			{"Emit", `\(adapter\.Adapter\)\.Broadcast`, false}, {"FetchSockets", `\(adapter\.Adapter\)\.FetchSockets`, true},
 			{"SocketsJoin", `\(adapter\.Adapter\)\.AddSockets`, true}, {"SocketsLeave", `\(adapter\.Adapter\)\.DelSockets`, true}, {"DisconnectSockets", `\(adapter\.Adapter\)\.DisconnectSockets`, true},
 		} {
@@ -386,11 +389,19 @@ func runC04(c *Ctx) {
 	}
 
 	c.Rule("C04-D5", "a closed socket is in no room: onClose disables join before leaveAll, and leaveAll (adapter.DeleteAll) is on every path of a connected socket's close (shared with C06-D2)", 3)
+	closedSocketInNoRoom(c, "C04-D5")
+}
+
+// closedSocketInNoRoom (C04-D5, C06-D6): the close path of a server socket
+// disables join before leaveAll, always runs leaveAll for a connected socket,
+// and Join/Leave address the adapter under the socket's own id.
+func closedSocketInNoRoom(c *Ctx, rule string) {
+	p := c.P
 	{
 		owner := p.Fn("sio", "serverSocket.onClose")
 		body := onceBodyOf(owner, "s.closeOnce")
 		if body == nil {
-			c.Ob("C04-D5", "sio.serverSocket.onClose/once", owner.Pos(), false, "close body not found")
+			c.Ob(rule, "sio.serverSocket.onClose/once", owner.Pos(), false, "close body not found")
 		} else {
 			jf := p.Field("sio", "serverSocket", "join")
 			isDisable := func(in ssa.Instruction) bool {
@@ -406,18 +417,18 @@ func runC04(c *Ctx) {
 			}
 			isLeave := callPred(`\(\*sio\.serverSocket\)\.leaveAll`)
 			early, trail := CanReachAvoiding(body, nil, isLeave, isDisable)
-			c.Ob("C04-D5", "sio.serverSocket.onClose/join-disabled-before-leaveAll", body.Pos(), !early, "leaveAll is reachable before join was replaced by a no-op: a Join landing right after DeleteAll survives the disconnect: "+trailString(p, trail))
+			c.Ob(rule, "sio.serverSocket.onClose/join-disabled-before-leaveAll", body.Pos(), !early, "leaveAll is reachable before join was replaced by a no-op: a Join landing right after DeleteAll survives the disconnect: "+trailString(p, trail))
 			li := Locks(body)
 			for _, d := range findInstrs(body, isDisable) {
-				c.Ob("C04-D5", "sio.serverSocket.onClose/join-swap-locked", d.Pos(), li.HoldsW(d, "s.joinMu"), "join must be swapped under joinMu")
+				c.Ob(rule, "sio.serverSocket.onClose/join-swap-locked", d.Pos(), li.HoldsW(d, "s.joinMu"), "join must be swapped under joinMu")
 			}
 			skip, trail2 := PrunedCanReach(body, nil, []Assume{{`s\.Connected\(\)`, true}}, nil, isLeave)
-			c.Ob("C04-D5", "sio.serverSocket.onClose/leaveAll", body.Pos(), !skip, "a connected socket's close skips leaveAll: "+trailString(p, trail2))
+			c.Ob(rule, "sio.serverSocket.onClose/leaveAll", body.Pos(), !skip, "a connected socket's close skips leaveAll: "+trailString(p, trail2))
 		}
 		j := p.Fn("sio", "serverSocket.Join")
 		lj := Locks(j)
 		lds := findInstrs(j, fieldLoadPred(p.Field("sio", "serverSocket", "join")))
-		c.Ob("C04-D5", "sio.serverSocket.Join/reads-under-joinMu", j.Pos(), len(lds) == 1 && lj.HoldsAny(lds[0], "s.joinMu"), "Join must read the current join function under joinMu")
+		c.Ob(rule, "sio.serverSocket.Join/reads-under-joinMu", j.Pos(), len(lds) == 1 && lj.HoldsAny(lds[0], "s.joinMu"), "Join must read the current join function under joinMu")
 		// the join closure adds to the adapter under this socket's id
 		cons := p.Fn("sio", "newServerSocket")
 		okJ := false
@@ -427,10 +438,10 @@ func runC04(c *Ctx) {
 				okJ = true
 			}
 		}
-		c.Ob("C04-D5", "sio.newServerSocket/join-closure", cons.Pos(), okJ, "the socket's join function must call adapter.AddAll(s.ID(), rooms)")
+		c.Ob(rule, "sio.newServerSocket/join-closure", cons.Pos(), okJ, "the socket's join function must call adapter.AddAll(s.ID(), rooms)")
 		lv := p.Fn("sio", "serverSocket.Leave")
 		dl := CallsTo(Calls(lv), `\(adapter\.Adapter\)\.Delete`)
-		c.Ob("C04-D5", "sio.serverSocket.Leave", lv.Pos(), len(dl) == 1 && Term(dl[0].Arg(0)) == "s.ID()" && Term(dl[0].Arg(1)) == "room", "Leave must call adapter.Delete(s.ID(), room)")
+		c.Ob(rule, "sio.serverSocket.Leave", lv.Pos(), len(dl) == 1 && Term(dl[0].Arg(0)) == "s.ID()" && Term(dl[0].Arg(1)) == "room", "Leave must call adapter.Delete(s.ID(), room)")
 	}
 }
 
